@@ -481,6 +481,10 @@ def gen_huge(rng, n, mem_mb):
         ('huge number in a bad-math message (parameter)', 'def m a {\n;((1<<20000)+a)/(a-a)\n}\nm 3', False),
         ('huge number as a label swap', 'def m a {\na:\n;\n}\nm 1<<20000', False), ('huge negative pad', ';\npad 0-(1<<20000)', False), ('huge pad', ';\npad 1<<20000', False),
         ('huge unaligned segment', ';\nsegment (1<<20000)+1', False), ('huge unaligned reserve', ';\nreserve (1<<20000)+1', False), ('huge negative reserve', ';\nreserve 0-(1<<20000)', False),
+        ('pad after a huge reserve (the address is printed)', ';\nreserve 1<<20000\npad 2', False, 64),
+        ('unaligned pad after a huge reserve (the address is printed)', ';\nreserve (1<<20000)+64\npad 2', False, 64),
+        ('wflip chain into a wflip area pushed out by a huge reserve', 'wflip 0, 3\nreserve 128\n;\nreserve 1<<20000', False, 64),
+        ('wflip chain into a wflip area beyond 2^w', 'wflip 0, 3\nreserve 128\n;\nreserve 1<<70', False, 64),
         ('huge aligned segment', ';\nsegment 1<<20000\n;', False), ('huge aligned reserve', ';\nreserve 1<<20000', False),
         ('huge rep times (negative)', 'def m {\n;\n}\n;\nrep(0-(1<<20000), i) m', False), ('huge flip', '1<<20000;', False),
         ('huge wflip value', 'wflip 0, 1<<20000', False), ('huge wflip address', 'wflip 1<<20000, 1', False),
